@@ -1,0 +1,12 @@
+//go:build !verif
+// +build !verif
+
+package tensor
+
+// verifEnabled is false in ordinary builds: every `if verifEnabled { ... }` branch is dead code.
+// The deterministic-simulation hooks live in verif_on.go (build tag `verif`).
+const verifEnabled = false
+
+func verifPoolPut(kind, class int, v interface{}) bool    { return false }
+func verifWrapScalarPool(size uintptr) func() interface{} { return nil }
+func verifFinalizer(obj interface{})                      {}
